@@ -583,7 +583,11 @@ def cli_format(exe, src, check=False):
         p = os.path.join(d, "input.gdn")
         with open(p, "wb") as f:
             f.write(src.encode("utf-8"))
-        rc, out, err = oracle.garden_cli(exe, ["format"] + (["--check"] if check else []) + [p], timeout=30, cwd=d)
+        args = ["format"] + (["--check"] if check else []) + [p]
+        rc, out, err = oracle.garden_cli(exe, args, timeout=30, cwd=d)
+        if rc == 124:
+            # the formatter takes milliseconds; a timeout is the machine's load: try again, alone, with a long limit
+            rc, out, err = oracle.garden_cli(exe, args, timeout=300, cwd=d)
         return rc, out, err
     finally:
         shutil.rmtree(d, ignore_errors=True)
@@ -667,7 +671,7 @@ def run(ctx):
             items.append((a, ed))
             meta.append((o, name, a, ed, b, exact))
     ctx.log("gapcheck on %d phase runs" % len(items))
-    rc, res, err = common.run_lines(mdl, [], gapcheck_lines(items), shards=16)
+    rc, res, err = common.run_lines(mdl, [], gapcheck_lines(items), shards=16, timeout=1800)
     if len(res) != len(items):
         ctx.broken("model-driver:gapcheck", "asked %d, got %d answers: %s" % (len(items), len(res), err[-300:]))
         return
@@ -680,6 +684,9 @@ def run(ctx):
             break
         applied = common.unhex(d["applied"]) if d.get("applied", "!") != "!" else None
         if applied != b.encode("utf-8") and d.get("sorted") == "1":
+            ctx.cov.setdefault("corr_mismatches", []).append({"phase": name, "input": a, "edits": ed, "formatter": b,
+                                                              "model_applied": (applied or b"!").decode("utf-8", "replace"),
+                                                              "whole_source": o["src"]})
             ctx.broken("correspondence:apply-edits", "phase %s on %r: model application of %s gives %r, formatter %r"
                        % (name, a, ed, (applied or b"!")[:200], b[:200]))
             break
